@@ -123,6 +123,12 @@ func VH_C02_depth_list_struct() {
 		// requires that the budget never grows (no wrap); the dereferences below it decrease it.
 		vRegion("list_budget_zero", l.depthLimit == 0)
 		vAssert(s.depthLimit <= l.depthLimit, "C02.depth.liststruct.no-increase")
+		// The property counts struct-list elements among the levels ("any mix of struct fields,
+		// struct-list elements and pointer-list elements"): while budget is left, stepping into an
+		// element uses one level, so a chain through nested struct lists is cut at D levels.
+		if l.depthLimit > 0 {
+			vAssert(s.depthLimit < l.depthLimit, "C02.depth.liststruct.element-is-a-level")
+		}
 	}
 }
 
